@@ -34,6 +34,13 @@ func zzC06_retransmit() {
 	start := now
 	symSetNow(time.Unix(0, now))
 	req := zzRequest(message.Confirmable, -1, codes.GET, message.Token{0xA1}, symBytes("payload", 2))
+	if symChoose("deadline", 2) == 1 {
+		// the caller's context carries a deadline far beyond every tick of this history
+		ctx, cancel := context.WithDeadline(context.Background(), time.Unix(0, 1<<62))
+		defer cancel()
+		req.SetContext(ctx)
+		symCover("with-deadline")
+	}
 	req.UpsertMessageID(cc.GetMessageID())
 	mid := req.MessageID()
 	acked := false
